@@ -272,7 +272,7 @@ def _monitor_backoff_floor(c, side):
     content = {}
     seen_idx, seen_rec = set(), set()
     k, tlast = 0, None
-    nst_phase = False     # the NewSessionTicket has its own schedule (post_handshake.go): doubling, then 60 s whatever I is
+    nst_phase = False     # the NewSessionTicket has its own schedule (post_handshake.go), under the same interval rule
     for e in c["events"]:
         if e["ev"] == "emit":
             content[e["idx"]] = e.get("recs") or []
@@ -281,12 +281,12 @@ def _monitor_backoff_floor(c, side):
             if e["cause"] == "timer":
                 if e["t"] == 0 or (tlast is not None and e["t"] == tlast):
                     continue                # the initial flight is not an expiry
-                if tlast is not None and k >= 1 and e["t"] - tlast < (min(I * 2 ** k, 60000) if (I < 60000 or nst_phase) else I):
+                if tlast is not None and k >= 1 and e["t"] - tlast < (min(I * 2 ** k, 60000) if I < 60000 else I):
                     if _repeated_injection(c, side):
                         return REPEAT_FRAG + " (%s retransmitted %d ms after its previous timer expiry although %d expiries had " \
                             "passed with nothing but copies of one fragment received; floor %d ms)" % (
                                 side, e["t"] - tlast, k, min(I * 2 ** k, 60000))
-                    floor = min(I * 2 ** k, 60000) if (I < 60000 or nst_phase) else I
+                    floor = min(I * 2 ** k, 60000) if I < 60000 else I
                     return "%s retransmitted %d ms after its previous timer expiry although %d expiries had passed with nothing " \
                            "new received (floor %d ms for the configured %d ms): the interval was %s" % (
                                side, e["t"] - tlast, k, floor, I,
